@@ -239,8 +239,8 @@ def r04_3(ctx: Ctx):
     return out
 
 
-def r04_4(ctx: Ctx):
-    """R04.4 minimize(): x and fun from the same accessor (tree best), nit from the metaepoch counter."""
+def r04_4(ctx: Ctx, with_nit: bool = True):
+    """R04.4 minimize(): x and fun are genome and fitness of the tree's one best individual (C05 additionally: nit is the tree's metaepoch counter)."""
     f = ctx.prog.func("pyhms.hms", "minimize")
     defs = local_defs(f)
     calls = [c for c in body_walk(f.node) if isinstance(c, ast.Call) and any(k.arg == "fun" for k in c.keywords) and any(k.arg == "x" for k in c.keywords)]
@@ -262,7 +262,8 @@ def r04_4(ctx: Ctx):
     tree_txt = x[: -len(".best_individual.genome")] if okx else None
     okn = isinstance(nv, ast.Attribute) and nv.attr == "metaepoch_count" and (tree_txt is None or canon(nv.value, defs) == tree_txt)
     definite = nv is None or isinstance(nv, (ast.Constant, ast.IfExp, ast.BinOp)) or (isinstance(nv, ast.Name) and nv.id in f.params())
-    obs.append(ctx.ob("R04.4", f, kw.get("nit", calls[0]), status=OK if okn else VIOLATION if definite else INCONCLUSIVE, detail="nit = metaepoch counter" if okn else f"nit=`{norm(kw['nit'])[:80] if kw.get('nit') is not None else '?'}`: not the number of metaepochs the tree performed (an iteration LIMIT is not a count: the run may have stopped on another condition first)", construct="nit"))
+    if with_nit:
+        obs.append(ctx.ob("R04.4", f, kw.get("nit", calls[0]), status=OK if okn else VIOLATION if definite else INCONCLUSIVE, detail="nit = metaepoch counter" if okn else f"nit=`{norm(kw['nit'])[:80] if kw.get('nit') is not None else '?'}`: not the number of metaepochs the tree performed (an iteration LIMIT is not a count: the run may have stopped on another condition first)", construct="nit"))
     return obs
 
 
@@ -324,6 +325,11 @@ def _dom(e: ast.AST, atoms: set[str]):
             return inner  # a best-first population cut at the front keeps its best
         return set()  # a positional cut of a population in no particular order: its best row may be the one cut off
     return None
+
+
+def r04_4_c04(ctx: Ctx):
+    """R04.4 minimize(): x and fun are genome and fitness of the tree's one best individual."""
+    return r04_4(ctx, with_nit=False)
 
 
 def r04_5(ctx: Ctx, need: str = "keep-offspring"):
@@ -592,7 +598,7 @@ RULES = [
     ("R04.1", r04_1, 4),
     ("R04.2", r04_2, 14),
     ("R04.3", r04_3, 6),
-    ("R04.4", r04_4, 2),
+    ("R04.4", r04_4_c04, 1),
     ("R04.5", r04_5, 8),
     ("R04.6", r04_6, 5),
     ("R04.7", r04_7, 3),
